@@ -14,6 +14,7 @@ import (
 	"path"
 	"path/filepath"
 	"slices"
+	"sync"
 	"text/template"
 	"time"
 
@@ -39,6 +40,9 @@ type HTMLReport struct {
 
 	// outputDir is the output directory for the generated reports.
 	outputDir string
+
+	// mu guards the results, the report is written by several workers.
+	mu sync.Mutex
 
 	// assetResults is the mapping from the asset name to strategy results.
 	assetResults map[string][]*htmlReportResult
@@ -103,6 +107,9 @@ func (h *HTMLReport) Begin(assetNames []string, _ []strategy.Strategy) error {
 
 // AssetBegin is called when backtesting for the given asset begins.
 func (h *HTMLReport) AssetBegin(name string, strategies []strategy.Strategy) error {
+	h.mu.Lock()
+	defer h.mu.Unlock()
+
 	_, ok := h.assetResults[name]
 	if ok {
 		return fmt.Errorf("asset has already begun: %s", name)
@@ -138,32 +145,40 @@ func (h *HTMLReport) Write(assetName string, currentStrategy strategy.Strategy, 
 	}
 
 	// Get asset strategy results.
-	results, ok := h.assetResults[assetName]
+	h.mu.Lock()
+	_, ok := h.assetResults[assetName]
+	h.mu.Unlock()
 	if !ok {
 		return fmt.Errorf("asset has not begun: %s", assetName)
 	}
 
-	// Append current strategy result for the asset.
-	h.assetResults[assetName] = append(results, &htmlReportResult{
+	result := &htmlReportResult{
 		AssetName:    assetName,
 		StrategyName: currentStrategy.Name(),
 		Action:       <-actions,
 		Since:        <-sinces,
 		Outcome:      <-outcomes * 100,
 		Transactions: <-transactions,
-	})
+	}
+
+	// Append current strategy result for the asset.
+	h.mu.Lock()
+	h.assetResults[assetName] = append(h.assetResults[assetName], result)
+	h.mu.Unlock()
 
 	return nil
 }
 
 // AssetEnd is called when backtesting for the given asset ends.
 func (h *HTMLReport) AssetEnd(name string) error {
+	h.mu.Lock()
 	results, ok := h.assetResults[name]
+	delete(h.assetResults, name)
+	h.mu.Unlock()
+
 	if !ok {
 		return fmt.Errorf("asset has not begun: %s", name)
 	}
-
-	delete(h.assetResults, name)
 
 	// Sort the backtest results by the outcomes.
 	slices.SortFunc(results, func(a, b *htmlReportResult) int {
@@ -174,7 +189,9 @@ func (h *HTMLReport) AssetEnd(name string) error {
 
 	// Report the best result for the current asset.
 	h.Logger.Info("Best outcome", "asset", name, "strategy", bestResult.StrategyName, "outcome", bestResult.Outcome)
+	h.mu.Lock()
 	h.bestResults = append(h.bestResults, bestResult)
+	h.mu.Unlock()
 
 	// Write the asset report.
 	err := h.writeAssetReport(name, results)
